@@ -227,6 +227,13 @@ func (h *clientConfigSessionHandler) writeBrandPacketTo(serverConn *serverConnec
 // ready for direct config plugin messages.
 func (h *clientConfigSessionHandler) enqueuePluginMessage(target *serverConnection, msg *plugin.Message) bool {
 	h.mu.Lock()
+	if target == nil {
+		// The caller looked before any connection was in flight. The flush for a
+		// connection started since then (it holds h.mu) may already be over, and a
+		// message queued now would wait for a flush that does not come again while
+		// later messages are forwarded directly. Look again under the lock.
+		target = h.player.connectionInFlightOrConnectedServer()
+	}
 	if target != nil && h.mu.readyServer == target {
 		h.mu.Unlock()
 		return false
